@@ -83,6 +83,40 @@ Proof.
     intros [|j] Hj; [reflexivity|]. apply H2. lia.
 Qed.
 
+(* a mask with no True: numpy's argmax answers 0 *)
+Lemma argmax_mask_none m : existsb (fun b => b) m = false -> argmax_mask m = 0%nat.
+Proof.
+  destruct m as [|b r]; [reflexivity|]. cbn [existsb argmax_mask]. destruct b; [reflexivity|].
+  cbn. intros H. rewrite H. reflexivity.
+Qed.
+
+Lemma existsb_id_map {X} (g : X -> bool) l : existsb (fun b => b) (map g l) = existsb g l.
+Proof. induction l as [|x r IH]; [reflexivity|]. cbn. rewrite IH. reflexivity. Qed.
+
+(* on ascending keys the cut is a clean split: everything from argmax on is >= cut, everything before < cut *)
+Lemma argmax_ge_key_sorted keys cut :
+  (forall i j, (i <= j < length keys)%nat -> nth i keys 0 <= nth j keys 0) ->
+  existsb (fun k => cut <=? k) keys = true ->
+  (forall j, (argmax_ge_key keys cut <= j < length keys)%nat -> cut <= nth j keys 0)
+  /\ (forall j, (j < argmax_ge_key keys cut)%nat -> nth j keys 0 < cut).
+Proof.
+  intros Hs He. unfold argmax_ge_key.
+  set (g := fun k => cut <=? k). set (m := map g keys).
+  assert (Hex : existsb (fun b => b) m = true) by (unfold m; rewrite existsb_id_map; exact He).
+  assert (Hne : m <> []).
+  { intros E. rewrite E in Hex. discriminate. }
+  pose proof (argmax_mask_lt m Hne) as Hlt.
+  destruct (argmax_mask_spec m Hex) as [H1 H2].
+  assert (Hlen : length m = length keys) by (unfold m; apply map_length).
+  assert (Hnth : forall j, (j < length keys)%nat -> nth j m false = g (nth j keys 0)).
+  { intros j Hj. unfold m. rewrite (nth_indep _ false (g 0)) by (rewrite map_length; exact Hj).
+    apply map_nth. }
+  split.
+  - intros j Hj. rewrite Hnth in H1 by lia. unfold g in H1.
+    pose proof (Hs (argmax_mask m) j ltac:(lia)) as Hle. lia.
+  - intros j Hj. specialize (H2 j Hj). rewrite Hnth in H2 by lia. unfold g in H2. lia.
+Qed.
+
 (* training-set floor *)
 Lemma n_train_floor keys thr min_s :
   0 <= min_s <= Z.of_nat (length keys) ->
